@@ -74,7 +74,7 @@ retry:
 		r.file = file
 	}
 	writeSize := int64(len(b))
-	if r.size+writeSize > r.maxSize {
+	if r.size > 0 && r.size+writeSize > r.maxSize {
 		if err := r.rotate(); err != nil {
 			return 0, err
 		}
